@@ -168,7 +168,7 @@ type Node07 struct {
 	// next node.  B2First: it is added before the first one.
 	Branch2 string `json:"branch2,omitempty"`
 	B2First bool   `json:"b2first,omitempty"`
-	PreH   string `json:"preh,omitempty"`   // "" or the pre-handler's value type
+	PreH    string `json:"preh,omitempty"` // "" or the pre-handler's value type
 	// Side (pass nodes whose incoming connection is a branch): a second predecessor.  The branch gets the
 	// lambda s<i> (In -> Out, Out an interface type) as its other target and s<i> -> x<i> is an edge; when
 	// Pick is set the branch chooses s<i>, so the pass-through node receives a dynamic value over an
@@ -610,6 +610,15 @@ func checkC07(c CaseC07) (*vkit.Failure, vkit.Meta) {
 							nilFlow = true
 						}
 						cands := []string{before, producerOut}
+						// an untyped pass-through node takes the type of the first branch condition added on it (interface
+						// or concrete), and untyped successors inherit it: every condition type on the pass-through chain
+						// in front of this node is a candidate too
+						for j := i - 1; j >= 0 && c.Nodes[j].Kind == "pass"; j-- {
+							cands = append(cands, c.Nodes[j].Branch, c.Nodes[j].Branch2)
+						}
+						if i > 0 && c.Nodes[i-1].Branch2 != "" {
+							cands = append(cands, c.Nodes[i-1].Branch2)
+						}
 						incoming := c.StartB
 						if i > 0 {
 							incoming = c.Nodes[i-1].Branch
